@@ -6,17 +6,14 @@ package kernel
 // transactions or a snapshot exchange fits the transport maximum (32 MiB).
 //
 // TWO tests are named TestMC_C31: this one (package kernel: batch accounting
-// model + conformance against the real batcher and the real p2p builders) and
-// /verif/harness/p2p/mc_c31_test.go (framing over a loopback QUIC pair).
-// bin/verif-run runs the packages in the order of its PKGS list
-// (common, crypto, storage, kernel, p2p), i.e. KERNEL FIRST, P2P LAST, and there
-// is one evidence file. Therefore:
-//   - this test reports its own violations through its own Check (VIOLATION /
-//     KNOWN-FINDING lines, replay files), writes a provisional evidence file and
-//     then the SIDE FILE  $VERIF_ROOT/build/C31-kernel.json  (its evidence, its
-//     distinct keys, tagged with $VERIF_SCRATCH = one wrapper invocation);
-//   - the p2p test runs last, merges that side file into its own Check and is
-//     the final writer of evidence/C31.json.
+// model + conformance against the real batcher and the real p2p builders; the
+// main check) and /verif/harness/p2p/mc_c31_test.go (framing over a loopback
+// QUIC pair). bin/verif-run runs the packages in the order of its PKGS list
+// (common, crypto, storage, kernel, p2p), i.e. kernel first, p2p last, collects
+// the evidence file each half writes and merges them itself (merge_evidence:
+// counts summed, level and extra keys of the first part = this one, per-part
+// coverage under "parts"). Each half reports its own violations through its own
+// Check; neither reads the other's output.
 //
 // Model. Three REAL admissible transaction classes are built once on a real
 // fixture node and pass the real Validate: S small transfer, P payload heavy
@@ -27,20 +24,16 @@ package kernel
 // up to 255 members are enumerated in the 6 class-sorted queue orders plus the
 // rotations of the boundary element; every message built from the resulting
 // batch is sized with the builders' length formula and must be <= max.
-// Conformance: the formula against the real builders (all ordered class
-// sequences of <= 3 members), the model against the real
-// node.popAndProcessCacheQueue (probe, threshold, worst, small and
-// after-boundary traces). Which size the real batcher accounts (unsigned
+// Conformance: the formula against the real builders (every class combination
+// of <= 3 members), the model against the real node.popAndProcessCacheQueue
+// (probe, threshold, exact-threshold, worst, small and after-boundary traces). Which size the real batcher accounts (unsigned
 // payload or signed envelope) is decided by the probe trace, not hard coded.
 
 import (
-	"encoding/json"
 	"fmt"
 	"math"
-	"os"
-	"path/filepath"
+	"runtime"
 	"runtime/debug"
-	"runtime/pprof"
 	"sort"
 	"strings"
 	"sync"
@@ -63,11 +56,11 @@ const (
 	c31P = 1
 	c31H = 2
 
-	c31HInputs  = 80               // inputs of a class H member
-	c31HKeys    = 256              // one-time keys per spent output, all sign
-	c31HExtra   = 2355 * 1024      // 2.3 MiB
-	c31PExtra   = 4089446          // 3.9 MiB
-	c31RelayHdr = 1 + 32 + 32      // type, from, to
+	c31HInputs  = 80          // inputs of a class H member
+	c31HKeys    = 256         // one-time keys per spent output, all sign
+	c31HExtra   = 2355 * 1024 // 2.3 MiB
+	c31PExtra   = 4089446     // 3.9 MiB
+	c31RelayHdr = 1 + 32 + 32 // type, from, to
 	c31Max      = p2p.TransportMessageMaxSize
 	c31TxMax    = config.TransactionMaximumSize
 	c31Retrieve = common.SnapshotTransactionsMaximum
@@ -252,6 +245,31 @@ func c31Queues(m [3]int, acct [3]int, fn func(q []c31Run)) {
 
 // ---- building the three real classes ----------------------------------------------
 
+// c31Parallel runs fn(i) for i in [0,n) on all cores. The fixture cannot be
+// cut short, so it does not use the cap-aware c.ParallelN.
+func c31Parallel(n int, fn func(i int)) {
+	var wg sync.WaitGroup
+	var mu sync.Mutex
+	next := 0
+	for w := 0; w < min(n, runtime.NumCPU()); w++ {
+		wg.Add(1)
+		go func() {
+			defer wg.Done()
+			for {
+				mu.Lock()
+				i := next
+				next++
+				mu.Unlock()
+				if i >= n {
+					return
+				}
+				fn(i)
+			}
+		}()
+	}
+	wg.Wait()
+}
+
 type c31Fixture struct {
 	M       *mcNode
 	Dir     string
@@ -360,7 +378,7 @@ func c31NewFixture(c *verifmc.Check, nS, nP, nH int) *c31Fixture {
 	}
 	const nX = 2 // spare deposits for the exact-threshold filler
 	deps := make([]*common.VersionedTransaction, nS+nP+nG+nX)
-	c.ParallelN(len(deps), "c31 deposits", func(_, i int) {
+	c31Parallel(len(deps), func(i int) {
 		amount := "1"
 		if i >= nS+nP && i < nS+nP+nG {
 			amount = common.NewIntegerFromString("0.005").Mul(c31HInputs * hOf(i-nS-nP)).String()
@@ -394,7 +412,7 @@ func c31NewFixture(c *verifmc.Check, nS, nP, nH int) *c31Fixture {
 			orefs = append(orefs, oref{g, o})
 		}
 	}
-	c.ParallelN(len(orefs), "c31 fan-out outputs", func(_, i int) {
+	c31Parallel(len(orefs), func(i int) {
 		r := crypto.NewKeyFromSeed(fixc.Seed64(fmt.Sprintf("c31-g-%d-%d", orefs[i].g, orefs[i].o)))
 		out := &common.Output{Type: common.OutputTypeScript, Amount: common.NewIntegerFromString("0.005"), Script: common.NewThresholdScript(1), Mask: r.Public()}
 		x := crypto.HashScalar(crypto.KeyMultPubPriv(&view.PublicViewKey, &r), uint64(orefs[i].o))
@@ -418,7 +436,7 @@ func c31NewFixture(c *verifmc.Check, nS, nP, nH int) *c31Fixture {
 	// the fan-outs are ordinary admissible transfers too: the first one goes
 	// through the real Validate (61 440 output keys are point-checked, 10 s of
 	// CPU), the equally shaped others only in the thorough tier
-	c.ParallelN(len(gs), "c31 fan-out validation", func(_, g int) {
+	c31Parallel(len(gs), func(g int) {
 		gs[g] = fixc.SignAll(&gs[g].Transaction, store, [][]*common.Address{w})
 		if g > 0 && !c.Thorough() {
 			return
@@ -438,7 +456,7 @@ func c31NewFixture(c *verifmc.Check, nS, nP, nH int) *c31Fixture {
 	f.Now = clock.NowUnixNano()
 	storage64 := common.NewThresholdScript(64)
 	f.S, f.P, f.H = make([]*c31Tx, nS), make([]*c31Tx, nP), make([]*c31Tx, nH)
-	c.ParallelN(nS+nP, "c31 S and P members", func(_, i int) {
+	c31Parallel(nS+nP, func(i int) {
 		tx := common.NewTransactionV5(common.XINAssetId)
 		tx.AddInput(deps[i].PayloadHash(), 0)
 		cl := c31S
@@ -469,9 +487,9 @@ func c31NewFixture(c *verifmc.Check, nS, nP, nH int) *c31Fixture {
 		ver.SignaturesMap = make([]map[uint16]*crypto.Signature, c31HInputs)
 		f.H[h] = &c31Tx{Class: c31H, Ver: ver}
 	}
-	c.ParallelN(nH, "c31 H payload hashes", func(_, h int) { f.H[h].Ver.PayloadHash() })
+	c31Parallel(nH, func(h int) { f.H[h].Ver.PayloadHash() })
 	// every one of the 256 keys of every input signs (parallel over inputs)
-	c.ParallelN(nH*c31HInputs, "c31 H signatures", func(_, j int) {
+	c31Parallel(nH*c31HInputs, func(j int) {
 		h, i := j/c31HInputs, j%c31HInputs
 		ver := f.H[h].Ver
 		msg := ver.PayloadHash()
@@ -526,7 +544,7 @@ func (f *c31Fixture) measure(c *verifmc.Check) (unsigned, envelope [3]int, ok bo
 			all = append(all, m)
 		}
 	}
-	c.ParallelN(len(all), "c31 member sizes", func(_, i int) {
+	c31Parallel(len(all), func(i int) {
 		m := all[i]
 		if m.U == 0 {
 			m.U = len(m.Ver.PayloadMarshal()) // = what Validate records as validated size
@@ -731,7 +749,9 @@ func c31RealSizes(f *c31Fixture, members []*c31Tx) (plain [4]int, relay [4]int, 
 	key := fixc.Key("c31-commitment").Public()
 	build := []func() []byte{
 		func() []byte { return p2p.VerifBuildTransactionsMessage(txs, p2p.PeerMessageTypeTransactionBundle) },
-		func() []byte { return p2p.VerifBuildTransactionsMessage(txs, p2p.PeerMessageTypeFinalizedTransactionBundle) },
+		func() []byte {
+			return p2p.VerifBuildTransactionsMessage(txs, p2p.PeerMessageTypeFinalizedTransactionBundle)
+		},
 		func() []byte { return p2p.VerifBuildTransactionChallenge(s.PayloadHash(), s.Signature, txs) },
 		func() []byte { return p2p.VerifBuildFullChallenge(s, &key, &key, txs) },
 	}
@@ -776,24 +796,16 @@ func (st *c31Stages) done(what string) {
 }
 
 type c31Finding struct {
-	Multiset [3]int
-	Batch    [3]int
-	Queue    string
-	Size     int
+	Multiset  [3]int
+	Batch     [3]int
+	Queue     string
+	Size      int
 	Accounted int
 }
 
 func TestMC_C31(t *testing.T) {
 	c := verifmc.Start(t, "C31", "model_checking")
-	distinctKeys := map[string]bool{}
-	var dmu sync.Mutex
-	distinct := func(k string) bool {
-		dmu.Lock()
-		distinctKeys[k] = true
-		dmu.Unlock()
-		return c.Distinct(k)
-	}
-	defer c31WriteSide(c, distinctKeys)
+	distinct := c.Distinct
 	defer c.Finish()
 	c.SetRule("states = multisets of the three measured transaction classes (S small, P payload heavy, H signature heavy) with 0..255 members, each in the 6 class-sorted queue orders plus the rotations of the boundary element; a case is distinct by (batch composition, class of the first member that does not join); transitions = messages sized (bundle, finalized bundle, transaction challenge, full challenge, each also relay wrapped) from the batch the accounting mirror forms; traces = model traces replayed on the real popAndProcessCacheQueue plus length-formula checks against the real p2p builders")
 	c.Assume("the three classes are real transactions that pass the real Validate; their sizes are measured, and the class abstraction is exact because all members of a class have identical sizes (asserted)",
@@ -801,11 +813,6 @@ func TestMC_C31(t *testing.T) {
 		"local proposal path: own chain made proposal-ready in-package (sync points of all peers at the own final round, other chains' cache rounds dated in the future), batches read from node.chain.CachePool; node.Peer is nil",
 		"the store is the real on-disk BadgerStore (NewBadgerStore options) in a scratch directory; funding deposits are custodian-signed and finalized through VerifFinalize")
 
-	if pf := os.Getenv("C31_PROFILE"); pf != "" {
-		fh, _ := os.Create(pf)
-		_ = pprof.StartCPUProfile(fh)
-		defer pprof.StopCPUProfile()
-	}
 	defer debug.SetGCPercent(debug.SetGCPercent(400)) // few, large, short-lived buffers (32 MiB messages)
 	st := &c31Stages{t0: time.Now(), cpu0: c31CPU()}
 	defer func() { c.Set("stages", st.rows) }()
@@ -849,7 +856,7 @@ func TestMC_C31(t *testing.T) {
 		}
 	}
 	formulaChecks := len(combos) * 8
-	c.ParallelN(len(combos), "formula vs real builders", func(_, i int) {
+	c31Parallel(len(combos), func(i int) {
 		b := combos[i]
 		var members []*c31Tx
 		for cl := range b {
@@ -978,9 +985,8 @@ func TestMC_C31(t *testing.T) {
 		return
 	}
 	var modes []string
-	for name, a := range candidates {
+	for name := range candidates {
 		want, _ := c31Expect(probe.queue, name == "signed-envelope")
-		_ = a
 		if c31SameActions(probe.actions, want) {
 			modes = append(modes, name)
 		}
@@ -1020,7 +1026,7 @@ func TestMC_C31(t *testing.T) {
 	for i := range workers {
 		workers[i] = &worker{outcomes: map[string]int64{}, seen: map[uint32]string{}}
 	}
-	c.ParallelN(c31Retrieve+1, "multisets by number of S members", func(wi, a int) {
+	complete := c.ParallelN(c31Retrieve+1, "multisets by number of S members", func(wi, a int) {
 		w := workers[wi]
 		for b := 0; a+b <= c31Retrieve; b++ {
 			for h := 0; a+b+h <= c31Retrieve; h++ {
@@ -1113,8 +1119,8 @@ func TestMC_C31(t *testing.T) {
 	c.Set("case_outcomes", total.outcomes)
 	c.Set("model_cross_checked_against_literal_mirror", total.cross)
 	c.Set("largest_message", map[string]any{"kind": "relay(full-challenge)", "bytes": total.maxSize + c31RelayHdr, "queue": c31Describe(total.maxQ), "batch": c31Key(total.maxBatch), "max": c31Max})
-	c.Require(total.states == 2829056, "expected C(258,3)=2829056 multisets, enumerated %d", total.states)
-	c.Require(total.outcomes["fits+cut"] > 0 && total.outcomes["fits"] > 0, "vacuous: the accounting cut was never exercised: %v", total.outcomes)
+	c.Require(!complete || total.states == 2829056, "expected C(258,3)=2829056 multisets, enumerated %d", total.states)
+	c.Require(!complete || total.outcomes["fits+cut"] > 0 && total.outcomes["fits"] > 0, "vacuous: the accounting cut was never exercised: %v", total.outcomes)
 
 	// ---- conformance (ii) part 2: traces around the threshold, worst, small ----
 	kOf := func(cl int) int { j, _, _ := c31Model([]c31Run{{cl, c31Retrieve}}, acct); return j[cl] }
@@ -1239,27 +1245,4 @@ func TestMC_C31(t *testing.T) {
 	c.Sample(map[string]any{"trace": c31Describe(probeQ), "real": c31Shape(probe.actions), "accounting": mode})
 	c.Sample(map[string]any{"largest": c31Describe(total.maxQ), "bytes": total.maxSize + c31RelayHdr})
 	c.Require(len(replayed) >= 13, "too few traces replayed: %d", len(replayed))
-}
-
-// c31WriteSide writes the side file merged by the p2p half (which runs last).
-func c31WriteSide(c *verifmc.Check, distinctKeys map[string]bool) {
-	if os.Getenv("VERIF_NO_EVIDENCE") != "" {
-		return
-	}
-	ev, err := os.ReadFile(filepath.Join(c.Root(), "evidence", "C31.json"))
-	if err != nil {
-		return
-	}
-	var evidence map[string]any
-	if json.Unmarshal(ev, &evidence) != nil {
-		return
-	}
-	keys := make([]string, 0, len(distinctKeys))
-	for k := range distinctKeys {
-		keys = append(keys, k)
-	}
-	sort.Strings(keys)
-	b, _ := json.Marshal(map[string]any{"run": os.Getenv("VERIF_SCRATCH"), "evidence": evidence, "distinct_keys": keys})
-	_ = os.MkdirAll(filepath.Join(c.Root(), "build"), 0o755)
-	_ = os.WriteFile(filepath.Join(c.Root(), "build", "C31-kernel.json"), b, 0o644)
 }
